@@ -407,7 +407,7 @@ impl SparseMatrix {
     /// `None` is returned.
     pub fn girth_with_max(&self, max: usize) -> Option<usize> {
         (0..self.num_cols())
-            .filter_map(|c| self.girth_at_node_with_max(Node::Col(c), max))
+            .filter_map(|c| bfs::BFSContext::new(self, Node::Col(c)).first_closed_path(max))
             .min()
     }
 
